@@ -212,6 +212,18 @@ pub struct Nomt<T> {
     _marker: std::marker::PhantomData<T>,
 }
 
+impl<T> Drop for Nomt<T> {
+    fn drop(&mut self) {
+        // The warm-up task of a session which was dropped without being finished ends
+        // asynchronously and keeps the store, and with it the directory lock, alive until then.
+        // If no session is alive any more, wait for such tasks, so that the directory can be
+        // opened again as soon as the handle is gone.
+        if self.access_lock.try_write().is_some() {
+            self.merkle_update_pool.wait_idle();
+        }
+    }
+}
+
 impl<T: HashAlgorithm> Nomt<T> {
     /// Open the database with the given options.
     ///
